@@ -30,6 +30,7 @@ def run(ctx):
     # literal numbers are re-emitted exactly (shared with C16.R1 / C05.L10)
     from rules import c16
     ctx.rule("C07.L10", "numbers in formatted source are printed exactly: f64 Display without precision, or precision 0 dominated by fract() == 0", floor=3)
+    c16.decimal_literals_are_floats(ctx, "C07.L10", core)
     pf = P.printer_fns(core)
     for pn in sorted(pf):
         for arm, var, vnames, vs in c16.number_arms(core, pn, pf[pn]):
